@@ -137,6 +137,8 @@ def check(rep):
             rep.violation("C13.echo", construct, where, msg, witness=r, witness_class=st)
     for i in (3, 20, len(cases) - 1):
         rep.sample({"object": str(cases[i][1])[:120], "printed": results[i].get("repr")})
+    from ..structure import check_field_agreement
+    check_field_agreement(rep, model, "C13.fields", ["__repr__", "__str__"], "the printed form", must_cover=True)
     rep.require_floor("C13.echo", 60, "objects")
     rep.assume("the float -> text -> float round trip of parameters is Python's float.__repr__ (exact); "
                "finite numeric content only")
